@@ -69,6 +69,8 @@ def create(route, path, outfile, piece_length=None, progress=1, announce=None, u
     try:
         if route in LIB_ROUTES:
             kw = dict(path=path, outfile=outfile, progress=progress, private=private, align=align)
+            if outfile is None:
+                del kw["outfile"]           # default location
             if swallowed:
                 del kw["path"]
             if piece_length is not None:
@@ -95,8 +97,8 @@ def create(route, path, outfile, piece_length=None, progress=1, announce=None, u
                 t = torrent.TorrentAssembler(meta_version="3", **kw)
             out, _meta = t.write()
         else:
-            argv = list(cli_prefix) + ["create", "--meta-version", route[-1], "-o", outfile,
-                                        "--prog", str(progress)]
+            argv = list(cli_prefix) + ["create", "--meta-version", route[-1]] + (["-o", outfile] if outfile is not None else []) + \
+                ["--prog", str(progress)]
             if piece_length is not None and pl_spelling == "equals":
                 argv += ["--piece-length=" + str(piece_length)]
             elif piece_length is not None and pl_spelling == "abbrev":
